@@ -38,7 +38,7 @@ def close(a, b):
 
 def sweep_python_distance(run, max_len=None, per_shape=None):
     """real dtw.distance (pure Python, imported from the working tree) vs. the oracle"""
-    repo = run.program.repo
+    repo = run.program.native_root()
     src = repo + '/src'
     if src not in sys.path:
         sys.path.insert(0, src)
@@ -102,7 +102,7 @@ def sweep_c_distance(run, max_len=None):
     import sys
     import array
     import importlib
-    src = run.program.repo + '/src'
+    src = run.program.native_root() + '/src'
     if src not in sys.path:
         sys.path.insert(0, src)
     dtw = importlib.import_module('dtaidistance.dtw')
